@@ -281,6 +281,9 @@ impl<T: Qcow2IoOps> Qcow2Dev<T> {
                     // behind marked as up to date, or its next user takes
                     // all-zero refcounts / mappings for real.
                     slice.set_offset(None);
+                    drop(slice);
+                    // and don't let a later commit make it visible
+                    cache.remove_from_wmap(&key);
                     return Err(err);
                 }
                 log::trace!("add_cache_slice: load from disk");
